@@ -22,7 +22,8 @@ Record case := {
   c_pfx : string;
   c_types : list (string * cfg);               (* toRealType on every value of the case (oracle, observed) *)
   c_d : list (key * cfg);
-  c_f : option (list (key * cfg));
+  c_f : option (list (key * cfg));              (* the file as koanfFromYaml read it *)
+  c_flog : option (list (key * cfg));           (* the file as the generator meant it (built from its logical leaves) *)
   c_env : list (string * string);
   c_obs : list outcome }.
 
@@ -120,6 +121,12 @@ Definition check (fix3 fix4 : bool) (c : case) : verdict :=
      says that two suffice: finding shapes, and names of the C20-F4 shape whose element exists); outside the
      domain the property says nothing and the exact outcome (panic, error, leftover keys) is not compared *)
   {| v_corr := negb (is_nil (c_obs c)) &&
+               (* yaml.go: the file front end returns the tree that was written *)
+               match c_f c, c_flog c with
+               | Some a, Some b => cfg_equivb (Map a) (Map b)
+               | None, None => true
+               | _, _ => false
+               end &&
                (negb scope ||
                 subset_outcomes (c_obs c) (model_outcomes fix3 fix4 c (g3 || g4 || (g_F4 c && negb fix4))));
      v_prop := match scope, te with
@@ -133,8 +140,8 @@ Definition check (fix3 fix4 : bool) (c : case) : verdict :=
      v_guards := guards [(3%Z, g3); (4%Z, g4)] |}.
 
 (* short constructors for the generated case files *)
-Definition cs p t d f e o :=
-  {| c_pfx := p; c_types := t; c_d := d; c_f := f; c_env := e; c_obs := o |}.
+Definition cs p t d f fl e o :=
+  {| c_pfx := p; c_types := t; c_d := d; c_f := f; c_flog := fl; c_env := e; c_obs := o |}.
 Definition kt (s : string) (nk val : string) : key := ([s], Some (nk, val)).
 Definition kf (l : list string) : key := (l, None).
 
